@@ -224,6 +224,38 @@ def r2_functions(program, folder, rep, eths):
         raise AnalysisError("spinn5_eth_coords signature changed")
     width, height, rx, ry = [Poly.atom(p) for p in ps]
     ys = yields(T)
+    if len(ys) > 1:
+        # a chip listed apart from the walk over the tiling (a short cut
+        # for small machines, ...): listed without having been compared
+        # with the machine's bounds?
+        def _looped(node_):
+            a_ = getattr(node_, "ast", None)
+            while a_ is not None and a_ is not fn:
+                if isinstance(a_, (ast.For, ast.While)):
+                    return True
+                a_ = getattr(a_, "_parent", None)
+            return False
+        apart = [y_ for y_ in ys if not _looped(y_[0])]
+        for yn_, yt_, yf_ in apart:
+            if yt_[0] != "tuple" or len(yt_) != 3:
+                continue
+            comps = [plain(x_) for x_ in yt_[1:]]
+            bounded = all(any(
+                t_[0] == "cmp" and t_[1] in ("Lt", "LtE") and
+                c_ in (plain(t_[2]), plain(t_[3])) and any(
+                    st_ in (("param", ps[0]), ("param", ps[1]))
+                    for st_ in subterms(t_))
+                for t_, p_ in yf_) for c_ in comps)
+            if not bounded:
+                rep.bad("C19-R2", inst, "chip listed apart from the walk",
+                        "spinn5_eth_coords lists %s without going through "
+                        "the walk over the board tiling and without "
+                        "comparing it with the machine's bounds: a chip "
+                        "outside the machine can be listed, and the "
+                        "Ethernet chips of neighbouring boards that the "
+                        "root offset brings into the machine are not" %
+                        show(yt_)[:50], getattr(yn_, "ast", fn))
+                return
     if len(ys) != 1 or ys[0][1][0] != "tuple" or len(ys[0][1]) != 3:
         raise AnalysisError("spinn5_eth_coords: yield shape changed")
     yn, yt, yfacts = ys[0]
@@ -609,12 +641,60 @@ def r4_dimensions(program, rep):
               construct="multiple-of-3 guard", node=fn)
 
 
+def r2_root_source(program, rep):
+    """The root-chip offset handed to the Ethernet-chip functions is the
+    machine's own: MachineController keeps it unknown (None) until the
+    machine has been asked (get_software_version(255, 255, 0).position);
+    nothing pre-fills it with a fixed coordinate."""
+    from ..util import defaults
+    MCM = "rig.machine_control.machine_controller"
+    m = program.module(MCM)
+    n = 0
+    for q, fn in sorted(m.defs.items()):
+        if not isinstance(fn, ast.FunctionDef) or \
+                not q.startswith("MachineController."):
+            continue
+        if not any(isinstance(x, ast.Attribute) and x.attr == "_root_chip"
+                   and isinstance(x.ctx, ast.Store) for x in ast.walk(fn)):
+            continue
+        T = Terms(fn)
+        dfl = defaults(fn)
+        for b_ in T.binds:
+            if b_.var != "self._root_chip" or b_.value is None:
+                continue
+            n += 1
+            t = plain(T._bind_term(b_))
+            asked = any(st_[0] in ("call", "callv") and st_[1][0] == "attr"
+                        and st_[1][2] == "get_software_version"
+                        for st_ in subterms(t))
+            if t == ("const", None) or asked:
+                ok, why = True, ""
+            elif t[0] == "param" and t[1] in dfl:
+                d_ = dfl[t[1]]
+                ok = isinstance(d_, ast.Constant) and d_.value is None
+                why = "it is pre-filled from the argument %s, whose " \
+                    "default is %s: unless every caller passes the real " \
+                    "root chip, the machine is never asked and all " \
+                    "Ethernet-chip geometry is computed for a tiling " \
+                    "rooted there" % (t[1], ast.unparse(d_))
+            else:
+                raise AnalysisError("MachineController: _root_chip is set "
+                                    "from a value that is not read")
+            rep.check(ok, "C19-R2", MCM + ":" + q, "the root chip is "
+                      "unknown until the machine reports it",
+                      construct="root chip source", node=b_.node.ast,
+                      fail=why)
+    if not n:
+        raise AnalysisError("MachineController: no store to _root_chip")
+
+
 def check(program, rep):
     program.module(MOD)
     folder = Folder(program)
     eths = rep.guard("C19-R1", r1_offset_table, folder, rep)
     rep.guard("C19-R2", r2_functions, program, folder, rep, eths)
     rep.guard("C19-R2", r2_dimensions, program, rep)
+    rep.guard("C19-R2", r2_root_source, program, rep)
     rep.guard("C19-R3", r3_fpga, program, folder, rep)
     rep.guard("C19-R4", r4_dimensions, program, rep)
     return finish(rep, program, EXPLANATION, NOT_DECIDED,
